@@ -1,10 +1,72 @@
-from jsim.envs.base import Adapter
+"""SlidingTilePuzzle: rules written from docs/environments/sliding_tile_puzzle.md and the class docstring.
+
+N x N grid holding the tiles 1..N*N-1 and the empty tile 0. Actions 0..3 move the *empty tile* up,
+right, down, left: it swaps places with the neighbouring tile on that side. A move is legal iff the
+empty tile stays inside the grid; an illegal move is ignored. Goal configuration: 1..N*N-1 in reading
+order with the empty tile in the last cell. Dense reward = change in the number of correctly placed
+tiles (the docs call every array element a tile, the 0 being "the empty tile", so all N*N cells
+count); sparse reward = 1 when the puzzle is solved after the move, else 0. The episode ends when
+the puzzle is solved or at the time limit (default 500).
+"""
+from __future__ import annotations
+
+from collections import deque
+from typing import Any, Dict, Optional, Tuple
+
+import numpy as np
+
 from jsim.envs._mk import cfg, cross_tl
+from jsim.envs.base import Adapter
+
+DELTA = [(-1, 0), (0, 1), (1, 0), (0, -1)]  # up, right, down, left (of the empty tile)
+NAMES = ["up", "right", "down", "left"]
+
+
+def goal(n: int) -> np.ndarray:
+    g = np.arange(1, n * n + 1, dtype=np.int64)
+    g[-1] = 0
+    return g.reshape(n, n)
+
+
+def correct(p: np.ndarray) -> int:
+    p = np.asarray(p)
+    return int((p == goal(p.shape[0])).sum())
+
+
+def solved(p: np.ndarray) -> bool:
+    p = np.asarray(p)
+    return bool(np.array_equal(p, goal(p.shape[0])))
+
+
+def blank_of(s: Any) -> Tuple[int, int]:
+    e = np.asarray(s.empty_tile_position)
+    return int(e[0]), int(e[1])
+
+
+def apply_move(p: np.ndarray, blank: Tuple[int, int], a: int) -> Tuple[np.ndarray, Tuple[int, int], bool]:
+    n = p.shape[0]
+    r, c = blank
+    nr, nc = r + DELTA[a][0], c + DELTA[a][1]
+    if not (0 <= nr < n and 0 <= nc < n):
+        return p.copy(), blank, False
+    q = p.copy()
+    q[r, c], q[nr, nc] = q[nr, nc], q[r, c]
+    return q, (nr, nc), True
 
 
 class A(Adapter):
     name = "SlidingTilePuzzle"
     mask_mode = "flat"
+    terminate_on_invalid = False
+    has_reaction = True
+    has_invalid_effect = True
+    has_objective = True
+    objective_without_end = True  # the dense reward telescopes at every prefix of an episode
+    has_model = True
+    has_observer = True
+
+    def __init__(self) -> None:
+        self._dist: Dict[int, Dict[bytes, int]] = {}  # policy cache only (distance-to-goal tables), not a rule
 
     def configs(self):
         base = [cfg("g5m200", True, g=5, mv=200, tl=None, rew="dense"), cfg("g3m20", True, g=3, mv=20, tl=None, rew="dense"),
@@ -23,3 +85,150 @@ class A(Adapter):
 
     def time_limit(self, env, c):
         return 500 if c.get("tl") is None else c["tl"]
+
+    # ---- C04 -------------------------------------------------------------------------------------
+    def legal(self, s: Any, env: Any) -> np.ndarray:
+        n = np.asarray(s.puzzle).shape[0]
+        r, c = blank_of(s)
+        return np.asarray([0 <= r + dr < n and 0 <= c + dc < n for dr, dc in DELTA], dtype=bool)
+
+    def describe(self, s, env, idx):
+        return f"empty tile at {blank_of(s)}, move {NAMES[int(idx[0])]}, grid {np.asarray(s.puzzle).shape}"
+
+    def reaction_invalid(self, ps, action, agent, s, ts, env, cfg):
+        # ignore-invalid env: treated as invalid iff the empty tile stayed where it was and no tile moved. A move that is
+        # carried out always displaces the empty tile.
+        same_blank = blank_of(s) == blank_of(ps)
+        same_puzzle = bool(np.array_equal(np.asarray(s.puzzle), np.asarray(ps.puzzle)))
+        if same_blank != same_puzzle:
+            return None  # inconsistent successor: not a statement about validity (C07-like; C09 reports it)
+        return same_blank
+
+    # ---- C05 -------------------------------------------------------------------------------------
+    def invalid_effect(self, ps, action, illegal, s, ts, env, cfg):
+        a = int(action)
+        pp, np_ = np.asarray(ps.puzzle), np.asarray(s.puzzle)
+        if blank_of(s) != blank_of(ps):
+            return ("invalid_move_moved_blank", f"{NAMES[a]} leaves the grid from {blank_of(ps)} but empty_tile_position became {blank_of(s)}")
+        if not np.array_equal(pp, np_):
+            d = np.argwhere(pp != np_)[0].tolist()
+            return ("invalid_move_changed_puzzle", f"{NAMES[a]} from {blank_of(ps)} is off-grid but cell {d} went {int(pp[tuple(d)])} -> {int(np_[tuple(d)])}")
+        tl = self.time_limit(env, cfg)
+        at_limit = int(ps.step_count) + 1 >= tl
+        # A reset state can already be the goal (random walk that returns home). The documented end "the puzzle is solved"
+        # then holds after an ignored move as well, so nothing is asserted about LAST in that case.
+        if not at_limit and not solved(pp) and int(ts.step_type) == 2:
+            return ("invalid_move_terminal", f"LAST after an ignored move at step {int(ps.step_count) + 1} < time_limit {tl}, puzzle unsolved")
+        if at_limit and int(ts.step_type) != 2:
+            return ("no_last_at_time_limit", f"step {int(ps.step_count) + 1} == time_limit {tl} but step_type {int(ts.step_type)}")
+        if cfg["rew"] == "dense" and float(ts.reward) != 0.0:
+            return ("invalid_move_reward", f"dense reward {float(ts.reward)} although no tile changed place")
+        if cfg["rew"] == "sparse" and not solved(pp) and float(ts.reward) != 0.0:
+            return ("invalid_move_reward", f"sparse reward {float(ts.reward)} although the puzzle is unsolved")
+        return None
+
+    # ---- C08 -------------------------------------------------------------------------------------
+    def objective(self, hist, env, cfg):
+        if cfg["rew"] != "dense":
+            return None  # the sparse reward (solved indicator) is a different objective; DESIGN §4 C08 excludes it
+        return float(correct(hist[-1].state.puzzle) - correct(hist[0].state.puzzle))
+
+    # ---- C09 -------------------------------------------------------------------------------------
+    def model_step(self, ps, action, s, ts, env, cfg):
+        a = int(action)
+        pp = np.asarray(ps.puzzle)
+        want_p, want_b, moved = apply_move(pp, blank_of(ps), a)
+        got_p = np.asarray(s.puzzle)
+        if not np.array_equal(got_p, want_p):
+            d = np.argwhere(got_p != want_p)[0].tolist()
+            return ("puzzle", f"{NAMES[a]} with the empty tile at {blank_of(ps)} ({'legal' if moved else 'off-grid'}): cell {d} is "
+                    f"{int(got_p[tuple(d)])}, the rules give {int(want_p[tuple(d)])}")
+        if blank_of(s) != want_b:
+            return ("empty_tile_position", f"{NAMES[a]} from {blank_of(ps)}: empty_tile_position {blank_of(s)} expected {want_b}")
+        sc = int(ps.step_count) + 1
+        if int(s.step_count) != sc:
+            return ("step_count", f"step_count {int(s.step_count)} expected {sc}")
+        is_solved = solved(want_p)
+        if cfg["rew"] == "dense":
+            want_r = float(correct(want_p) - correct(pp))
+        else:
+            want_r = 1.0 if is_solved else 0.0
+        if not np.isclose(float(ts.reward), want_r, rtol=1e-5, atol=1e-6):
+            return ("reward", f"{cfg['rew']} reward {float(ts.reward)} expected {want_r} ({NAMES[a]} from {blank_of(ps)})")
+        done = is_solved or sc >= self.time_limit(env, cfg)
+        if (int(ts.step_type) == 2) != done:
+            return ("termination", f"step_type {int(ts.step_type)} but the rules say done={done} (solved={is_solved}, step {sc}/{self.time_limit(env, cfg)})")
+        want_disc = 0.0 if done else 1.0
+        if float(ts.discount) != want_disc:
+            return ("discount", f"discount {float(ts.discount)} expected {want_disc}")
+        return None
+
+    # ---- C11 -------------------------------------------------------------------------------------
+    def end_cause(self, ps, action, s, ts, env, cfg):
+        return "solved" if solved(np.asarray(s.puzzle)) else None
+
+    # ---- C12 -------------------------------------------------------------------------------------
+    def observe(self, s, obs, env, cfg):
+        sp, op = np.asarray(s.puzzle), np.asarray(obs.puzzle)
+        if sp.shape != op.shape or not np.array_equal(sp, op):
+            return ("puzzle", "obs.puzzle != state.puzzle")
+        if not np.array_equal(np.asarray(obs.empty_tile_position), np.asarray(s.empty_tile_position)):
+            return ("empty_tile_position", f"obs {np.asarray(obs.empty_tile_position).tolist()} vs state {np.asarray(s.empty_tile_position).tolist()}")
+        r, c = blank_of(s)
+        n = sp.shape[0]
+        if 0 <= r < n and 0 <= c < n and sp[r, c] != 0:
+            return ("empty_tile_position_vs_puzzle", f"empty_tile_position {(r, c)} but that cell holds tile {int(sp[r, c])}")
+        if int(obs.step_count) != int(s.step_count):
+            return ("step_count", f"obs {int(obs.step_count)} vs state {int(s.step_count)}")
+        want = self.legal(s, env)  # the state carries no mask; the documented one is "empty tile stays inside the grid"
+        if not np.array_equal(np.asarray(obs.action_mask).astype(bool), want):
+            return ("action_mask", f"obs.action_mask {np.asarray(obs.action_mask).tolist()} but the empty tile at {(r, c)} allows {want.tolist()}")
+        return None
+
+    # ---- policies --------------------------------------------------------------------------------
+    def policy_survive(self, s, env, rng, legal):
+        """Wander without ever finishing the puzzle (at most one neighbour of a configuration is the goal)."""
+        if legal is None or not legal.any():
+            return None
+        p = np.asarray(s.puzzle)
+        for a in [int(x) for x in rng.permutation(4)]:
+            if legal[a]:
+                q, _, _ = apply_move(p, blank_of(s), a)
+                if not solved(q):
+                    return a
+        return None
+
+    def _table(self, n: int) -> Dict[bytes, int]:
+        """Distances to the goal by breadth-first search from the goal, capped at 200k configurations
+        (complete for 2x2 and 3x3; a ball of small scrambles for larger grids)."""
+        if n not in self._dist:
+            g = goal(n).astype(np.int8)
+            dist = {g.tobytes(): 0}
+            dq = deque([(g, (n - 1, n - 1))])
+            while dq and len(dist) < 200_000:
+                p, b = dq.popleft()
+                d = dist[p.tobytes()]
+                for a in range(4):
+                    q, nb, ok = apply_move(p, b, a)
+                    if ok and q.tobytes() not in dist:
+                        dist[q.tobytes()] = d + 1
+                        dq.append((q, nb))
+            self._dist[n] = dist
+        return self._dist[n]
+
+    def policy_complete(self, s, env, rng, legal):
+        if legal is None or not legal.any():
+            return None
+        p = np.asarray(s.puzzle).astype(np.int8)
+        tab = self._table(p.shape[0])
+        here = tab.get(p.tobytes())
+        if here is None:
+            return None  # too far from the goal for the table: fall back to a legal move
+        if here == 0:  # already solved (possible at reset): any legal move
+            return None
+        for a in [int(x) for x in rng.permutation(4)]:
+            if legal[a]:
+                q, _, _ = apply_move(p, blank_of(s), a)
+                if tab.get(q.tobytes()) == here - 1:
+                    return a
+        return None
